@@ -48,6 +48,8 @@ CLAIMS = {
          "For 19 Writeable/Readable pairs every token string the writer can emit is accepted by the reader (and conversely for fixed layouts); each optional-field flag is set from, guards and is read into the same field; the u8/string/enum tables are mutually inverse bijections; Slate<->SlateV4 field maps are total and inverse; every skip_serializing_if has a default satisfying it; the sets of kernel features that carry arguments agree across siblings (3 known findings: NRD / tx_from_slate_v4); length prefixes are bound-checked (2 defects repaired). Value-level equality of round trips is not decided."),
  "C20": ("lock analysis: wallet-lock sections (guard live ranges), value flow of records across sections, held-while-acquire graph over all mutex identities through the resolved call graph", "4 C20",
          "R1: no record obtained inside one wallet-lock section flows into a save/delete/lock written in a different section (36 read-to-write flows; 6 known findings in update_wallet_state/update_txs_via_kernel/scan, witnessed); R2: the held-while-acquire graph over the wallet mutex, the global secp mutex (including the momentary lock inside static_secp_instance), Owner.tor_config, the keychain-mask and shared-key mutexes and the updater flags is acyclic, so no interleaving of these operations can deadlock on them (3 cycles found, witnessed and repaired in /repo). Both are necessary conditions; serialisability of all interleavings as such is not decided."),
+ "C16": ("struct-literal field provenance + comparison-shape / dataflow analysis of the paging loop + cut-set guards of the repair branches", "5 and 11.7 C16",
+         "Structural necessary conditions only: every field of the OutputResult built from a chain output and of the OutputData saved by restore_missing_output comes from the corresponding chain / rewind datum (value, height, coinbase flag, maturity on the coinbase edge, mmr index, key id, account = parent path, status Unspent); the PMMR paging loop leaves only on highest_index <= last_retrieved_index, continues at last_retrieved_index + 1 and consumes every batch before the test; scan() restores missing outputs and un-spends on-chain outputs always, unlocks / deletes only under delete_unconfirmed, classifies by status, and compares the records of every account including spent ones. Completeness over chain histories, equality of totals and idempotence are not decided."),
 }
 
 checks = []
@@ -63,7 +65,6 @@ for pid, (tech, ref, text) in sorted(CLAIMS.items()):
         "technique": "static analysis: " + tech,
     })
 NA = {
- "C16": "scan completeness/idempotence quantify over chain histories and range-proof rewinding: no structural clause of the statement is decidable statically (DESIGN.md section 5); structural facts around scan are decided under C06/C15/C20",
 }
 na = []
 for i in ids:
